@@ -14,8 +14,8 @@ from ..engine_bfs import Search, canon
 from ..engine_enum import Acc, run_shards
 from ..evidence import Report
 from ..ref import midi as ref
-from .parser_common import (ALPHA15, INVALID_ITEMS, hexs, reject_probe,
-                            stream_oracle)
+from .parser_common import (ALPHA15, INVALID_ITEMS, hexs, long_streams,
+                            reject_probe, stream_oracle)
 
 PROP = 'C04'
 
@@ -222,6 +222,10 @@ def worker(shard):
     mido = common.import_mido()
     acc = Acc()
     prefix, n = shard
+    if prefix == 'long':
+        for data, label in long_streams(mido):
+            check_string(mido, tuple(data), acc)
+        return acc
     if prefix == 'reject':
         # after a rejected element the parser stays total and sound
         for k in range(0, 4):
@@ -264,7 +268,7 @@ def run():
     rep.require(srch.states > 100, f'only {srch.states} parser states')
     rep.require(not srch.capped, 'closure search hit a cap')
 
-    shards = [(None, N), ('reject', N)] + [((a, b), N) for a in ALPHA15
+    shards = [(None, N), ('reject', N), ('long', N)] + [((a, b), N) for a in ALPHA15
                                             for b in ALPHA15]
     run_shards(worker, shards, rep)
     rep.coverage['traces_validated_against_impl'] += rep.coverage['evaluations']
